@@ -591,7 +591,7 @@ def match_known(known, name, fl):
 
 
 # a cross-check mismatch is a CHECKER-ERROR (exit 3): switched on once the cross-check was quiet on the unchanged tree
-XCHECK_ENFORCED = False
+XCHECK_ENFORCED = True
 
 DROPPED = ["decorators (@attrs/@define fields become typed pre-state; @implementer; @m.input/@m.output/@m.state replaced by "
            "Automat dispatch semantics)", "docstrings", "log.msg/log.err/print/debug calls", "self._timing.add(...)",
